@@ -127,7 +127,7 @@ func runC07(c *core.Ctx) {
 	nontriv := false
 	for _, l := range hidden {
 		ml := model.OwnLayers(l.Node)[l.Li]
-		if ml.HasHint || ml.HasDetail || ml.Domain != "" || ml.Assert || ml.HasHTTP || ml.HasGRPC || ml.Keys != nil || ml.Link != nil || ml.Tags != nil || strings.Contains(ml.GoType, "gen.") {
+		if ml.HasHint || ml.HasDetail || ml.HasDomain || ml.Assert || ml.HasHTTP || ml.HasGRPC || ml.Keys != nil || ml.Link != nil || ml.Tags != nil || strings.Contains(ml.GoType, "gen.") {
 			nontriv = true
 		}
 		c.Cover("hidden-layer-type", famShort(l.Fam))
